@@ -33,6 +33,13 @@ def moduli(n):
 
 def family(fam, n, seed):
     """(operator, dense matrix, spectrum)"""
+    if isinstance(fam, list):  # ["term", t]: an operator term of any kind; its spectrum comes from the reference matrix
+        from mc.refmodel import ref
+        from mc.terms import build
+        M = ref(fam[1], seed).mat
+        if np.max(np.abs(M.imag), initial=0.0) == 0:
+            M = M.real.copy()
+        return build(fam[1], seed), M, np.linalg.eigvals(M)
     base, _, scale = fam.partition("@")  # "@tiny" / "@huge": the same family at scale 2^-45 / 2^40 (eigenpairs scale with the operator)
     if scale:
         A0, M0, lam0 = family(base, n, seed)
@@ -132,6 +139,24 @@ def _best_subset(vals, cand):
     return out
 
 
+def term_family(tier):
+    from mc import alphabet as AB
+    from mc import invfam
+    L_ = AB.with_shapes(invfam.leaves() + [AB.D(3, 3, "f8", "sym"), AB.D(3, 3, "c16", "sym"), ["Ann", "SelfAdjoint", AB.D(3, 3, "f8", "sym")],
+                                           ["Ann", "SelfAdjoint", AB.D(2, 2, "c16", "sym")]])
+    un = {"T": AB.UNARY["T"], "H": AB.UNARY["H"], "lmul": lambda a: [["lmul", "cj", a]], "NoDisp": AB.UNARY["NoDisp"]}
+    bi = {"matmul": AB.BINARY["matmul"], "kron": AB.BINARY["kron"], "BlockDiag": lambda a, b: [["BlockDiag", [a, b], [1, 1]]], "add": AB.BINARY["add"],
+          "kronsum": AB.BINARY["kronsum"]}
+    sq = lambda ps: [(t, s) for t, s in ps if s[0] == s[1]]  # noqa: E731
+    if tier == "quick":
+        pk = {repr(L_[i][0]) for i in (1, 2, 6, 8, 12, 16, 31)}
+        Lp = [(t, sh) for t, sh in L_ if repr(t) in pk]
+        l1 = AB.grow([L_], unary=un, binary={}, max_dim=12) + AB.grow([Lp], unary={}, binary=bi, max_dim=12)
+    else:
+        l1 = AB.grow([L_], unary=un, binary=bi, max_dim=16)
+    return [t for t, _ in sq(L_ + l1)]
+
+
 def run_case(case, seed):
     fam, n, algname = case
     vio = []
@@ -141,7 +166,24 @@ def run_case(case, seed):
         warnings.simplefilter("ignore")
         A, M, lam = family(fam, n, seed)
         normA = float(np.linalg.norm(M, 2))
-        sa = fam.startswith("sa_")
+        if isinstance(fam, list):
+            from mc.refmodel import coarse_signature
+            n = M.shape[0]
+            mods_ = np.sort(np.abs(lam))
+            herm = bool(np.allclose(M, M.conj().T, rtol=0, atol=1e-12 * max(normA, 1e-300)))
+            condV = 1.0 if herm else float(np.linalg.cond(np.linalg.eig(M)[1]))
+            gap = min([abs(a - b) for i, a in enumerate(lam) for b in lam[i + 1:]], default=np.inf)
+            if normA == 0 or gap < 1e-3 * mods_[-1] or condV > 1e3 or (algname == "PowerIteration" and n > 1 and mods_[-2] > 0.99 * mods_[-1]):
+                # the property is about simple, well-separated spectra: repeated eigenvalues (identity / repeated blocks) are counted only; ties
+                # in MODULUS between distinct eigenvalues (+-2, conjugate pairs) are judged (either member is accepted at the cut) except by
+                # power iteration, which cannot separate them
+                return {"states": 0, "transitions": 1, "outcome": "not-judged", "violations": [], "notes": {"terms_not_judged_repeated_eigenvalues_or_illconditioned": 1}}
+            fam = "term:" + coarse_signature(case[0][1])
+            sa = herm and A.isa(cola.SelfAdjoint)
+            if algname.startswith(("Lanczos", "Eigh")) and not sa:
+                return {"states": 0, "transitions": 1, "outcome": "not-admissible", "violations": [], "notes": {"hermitian_algorithms_not_admissible_on_this_term": 1}}
+        else:
+            sa = fam.startswith("sa_")
         power = algname == "PowerIteration"
         dom = lam[np.argmax(np.abs(lam))]
         real_with_complex_dominant = (not np.iscomplexobj(M)) and abs(complex(dom).imag) > 1e-12 * abs(complex(dom))
@@ -221,8 +263,8 @@ def run_case(case, seed):
                 e = fn(A) if alg is None else fn(A, alg)
                 e = complex(np.asarray(e).reshape(-1)[0])
                 want = want_values(lam, 1, which)[0]
-                if abs(e - np.conj(want)) < abs(e - want):
-                    want = np.conj(want)  # either member of a complex-conjugate pair of a real matrix
+                ties = [x for x in lam if abs(abs(x) - abs(want)) <= 1e-9 * max(normA, 1e-300)]  # eigenvalues of the same extreme modulus:
+                want = min(ties, key=lambda x: abs(e - x))  # a complex-conjugate pair of a real matrix, +-r: either member is "the" extreme one
                 loose = algname in ("omitted", "Auto") and which == "LM"
                 if not np.isfinite(e) or abs(e - want) > (10 * np.sqrt(1e-12) if power else (1e-4 if loose else 1e-7)) * normA:
                     vio.append({"key": f"C10|{fn.__name__}|value|{algname}|{fam}", "what": f"{fn.__name__} wrong ({algname}, {fam})",
@@ -249,19 +291,24 @@ def cases(tier, seed):
                 if a.endswith("_def") and tier == "quick" and n not in (2, 5):
                     continue
                 out.append([fam, n, a])
-    _DESC.update({"families": FAMILIES, "sizes": ns, "algorithms": ALGS, "work_items": len(out)})
+    tf = term_family(tier)
+    for t in tf:
+        for a in ("omitted", "Auto", "Eig", "Eigh", "Lanczos_n2", "Arnoldi_n2", "PowerIteration") if tier == "quick" else ALGS:
+            out.append([["term", t], 0, a])
+    _DESC.update({"families": FAMILIES, "operator_terms": len(tf), "sizes": ns, "algorithms": ALGS, "work_items": len(out)})
     return out
 
 
 def case_signature(case):
-    return ",".join(map(str, case))
+    return ",".join(map(str, case))[:120]
 
 
 def describe(tier, seed):
     return {
         "bound": "families {self-adjoint definite / indefinite (real, complex), general real with complex-conjugate pairs, complex, Diagonal "
                  "unsorted with negatives (real, complex), Triangular lower / upper, Identity; self-adjoint indefinite and general families at scale 2^-45 / 2^40} x n in " + str(_DESC.get("sizes"))
-                 + " x ALL 1<=k<=n x {LM, SM} x 11 algorithm settings (iteration caps n, n+2, default 1000), eigmax / eigmin",
+                 + "; operator terms of every kind with an inverse rule plus symmetric / declared self-adjoint leaves, depth-1 nesting (T, H, scalar, no_dispatch, +, @, kron, "
+                 "kronsum, BlockDiag), judged when the moduli are separated and the eigenvectors well conditioned; x ALL 1<=k<=n x {LM, SM} x 11 algorithm settings (iteration caps n, n+2, default 1000), eigmax / eigmin",
         "alphabet": _DESC,
         "oracle": "returned values = the k largest / smallest-modulus eigenvalues of the prescribed spectrum (multiset, 1e-7 ||A||); every pair "
                   "satisfies ||Av - lv|| <= 1e-7 ||A|| ||v||, v != 0, vectors independent (orthonormal for self-adjoint input)",
